@@ -9,14 +9,16 @@
    oracle `clock : nat -> bool` on the check index) and then the memory estimate. *)
 Require Import Selen.Model.Prelude Selen.Model.Dom Selen.Model.Views Selen.Model.PropDefs.
 Require Import Selen.Model.Props.Basic Selen.Model.Propagate Selen.Model.Search.
+Require Import Selen.Generated.Consts.
 
 Inductive limit := LTimeout | LMemory.
 
 Record lstate := mkl { iters : Z; checks : Z }.
 
-(* Engine::get_memory_usage_mb: ((512 + 3*stack + 2 + (iters/10000)*5) / 1024).max(1) *)
+(* Engine::get_memory_usage_mb: ((512 + 3*stack + 2 + (iters/10000)*5) / 1024).max(1); the numbers are
+   regenerated from the source on every run (Generated/Consts.v) *)
 Definition mem_usage (depth : nat) (iters : Z) : Z :=
-  Z.max 1 ((512 + 3 * Z.of_nat depth + 2 + (iters / 10000) * 5) / 1024).
+  Z.max mem_min_mb ((mem_base_kb + mem_frame_kb * Z.of_nat depth + mem_current_kb + (iters / mem_iter_div) * mem_iter_kb) / mem_kb_per_mb).
 Definition mem_exceeded (mlimit : option Z) (depth : nat) (iters : Z) : bool :=
   match mlimit with Some l => l <? mem_usage depth iters | None => false end.
 
